@@ -66,6 +66,10 @@ func runSolver(ctx context.Context, sp solverSpec, file string, timeoutS int) (s
 
 // solve races the portfolio.  wantAll>1 asks for that many independent unsat answers (thorough tier).
 func solve(file string, timeoutS int, wantUnsat int) solveResult {
+	return solveWith(file, timeoutS, wantUnsat, solvers)
+}
+
+func solveWith(file string, timeoutS int, wantUnsat int, solvers []solverSpec) solveResult {
 	ctx, cancel := context.WithCancel(context.Background())
 	defer cancel()
 	type ans struct {
@@ -122,12 +126,19 @@ func solve(file string, timeoutS int, wantUnsat int) solveResult {
 }
 
 func writeQuery(workDir string, pre *Prelude, o *Obligation) string {
-	prelude := pre.For(o.Query, o.NoLemmas)
+	prelude, post := pre.For(o.Query, o.NoLemmas, o.Uses)
 	var b strings.Builder
 	b.WriteString("; obligation " + o.Name + "\n; " + o.Where + "\n; " + o.Src + "\n")
 	b.WriteString("(set-option :produce-models true)\n(set-logic ALL)\n")
 	b.WriteString(prelude)
-	b.WriteString(o.Query)
+	// heap-lemma instances go after the declarations and before the final (negated goal) assertion
+	q := o.Query
+	if k := strings.LastIndex(q, "(assert (not "); k >= 0 && post != "" {
+		q = q[:k] + post + q[k:]
+	} else {
+		q += post
+	}
+	b.WriteString(q)
 	b.WriteString("(check-sat)\n")
 	if len(o.Inputs) > 0 {
 		var ts []string
@@ -140,6 +151,72 @@ func writeQuery(workDir string, pre *Prelude, o *Obligation) string {
 	file := filepath.Join(workDir, fmt.Sprintf("%x.smt2", h[:8]))
 	os.WriteFile(file, []byte(b.String()), 0o644)
 	return file
+}
+
+// sanityAssumptions: the query without its negated goal must not be `unsat`
+// for z3-new (guards against a wrong unsat derived from the assumptions alone).
+func sanityAssumptions(file string) bool {
+	data, err := os.ReadFile(file)
+	if err != nil {
+		return true
+	}
+	txt := string(data)
+	i := strings.LastIndex(txt, "(assert (not ")
+	j := strings.LastIndex(txt, "(check-sat)")
+	if i < 0 || j < i {
+		return true
+	}
+	f2 := file + ".sanity.smt2"
+	os.WriteFile(f2, []byte(txt[:i]+"(check-sat)\n"), 0o644)
+	defer os.Remove(f2)
+	ctx, cancel := context.WithTimeout(context.Background(), 6*time.Second)
+	defer cancel()
+	st, _ := runSolver(ctx, solvers[0], f2, 4)
+	return st != "unsat"
+}
+
+var sanityMu sync.Mutex
+var sanityCache = map[string]bool{}
+
+// fnSanity: once per function, z3-new must not refute the definitions and
+// axioms of the function's largest query on their own (no path condition, no goal).
+func fnSanity(fn, workDir string, pre *Prelude, obls []*Obligation) bool {
+	sanityMu.Lock()
+	if v, ok := sanityCache[fn]; ok {
+		sanityMu.Unlock()
+		return v
+	}
+	sanityMu.Unlock()
+	var big *Obligation
+	for _, o := range obls {
+		if o.Fn == fn && (big == nil || len(o.Query) > len(big.Query)) {
+			big = o
+		}
+	}
+	ok := true
+	if big != nil {
+		prelude, post := pre.For(big.Query, big.NoLemmas, big.Uses)
+		q := big.Query
+		if k := strings.LastIndex(q, "(assert (not "); k >= 0 {
+			q = q[:k]
+		}
+		// drop the path-condition assertion (last plain "(assert pc...)" line)
+		lines := strings.Split(strings.TrimRight(q, "\n"), "\n")
+		if n := len(lines); n > 0 && strings.HasPrefix(lines[n-1], "(assert ") && !strings.Contains(lines[n-1], " ") {
+			lines = lines[:n-1]
+		}
+		txt := "(set-logic ALL)\n" + prelude + strings.Join(lines, "\n") + "\n" + post + "(check-sat)\n"
+		f2 := filepath.Join(workDir, "sanity-"+fmt.Sprintf("%x", sha256.Sum256([]byte(fn)))[:12]+".smt2")
+		os.WriteFile(f2, []byte(txt), 0o644)
+		ctx, cancel := context.WithTimeout(context.Background(), 8*time.Second)
+		st, _ := runSolver(ctx, solvers[0], f2, 5)
+		cancel()
+		ok = st != "unsat"
+	}
+	sanityMu.Lock()
+	sanityCache[fn] = ok
+	sanityMu.Unlock()
+	return ok
 }
 
 func dischargeAll(obls []*Obligation, prelude *Prelude, workDir string, timeoutS, workers, wantUnsat int) {
@@ -159,6 +236,14 @@ func dischargeAll(obls []*Obligation, prelude *Prelude, workDir string, timeoutS
 			file := writeQuery(workDir, prelude, o)
 			o.File = file
 			r := solve(file, timeoutS, wantUnsat)
+			if r.status == "unsat" && r.backend == solvers[0].name && o.Kind != "cover" {
+				if !fnSanity(o.Fn, workDir, prelude, obls) {
+					// z3-new refutes the assumptions themselves: do not trust it for this query
+					r2 := solveWith(file, timeoutS, wantUnsat, solvers[1:])
+					r = r2
+					r.all[solvers[0].name] = "unsat(rejected: assumptions alone refuted)"
+				}
+			}
 			o.Result, o.Backend, o.Ms = r.status, r.backend, r.ms
 			o.Model = r.output
 			o.All = r.all
